@@ -6,6 +6,7 @@
 package main
 
 import (
+	"runtime"
 	"runtime/debug"
 
 	"bytes"
@@ -132,8 +133,11 @@ func newClientW(s *sockSim, bufSize int, w io.Writer) (*libaudit.NetlinkClient, 
 	if bufSize > 0 {
 		buf = make([]byte, bufSize)
 	}
-	return libaudit.NewNetlinkClient(syscall.NETLINK_ROUTE, 0, buf, w)
+	return libaudit.NewNetlinkClient(syscall.NETLINK_ROUTE, clientGroups, buf, w)
 }
+
+// clientGroups: the multicast group mask clients are created with (0 except in the pass over subscribed clients).
+var clientGroups uint32
 
 type failWriter struct{}
 
@@ -171,94 +175,133 @@ func checkSend(r reporter, tier string) (evals, nontrivial int64) {
 			lengths = append(lengths, n)
 		}
 	}
-	s := &sockSim{}
-	c, err := newClient(s, 0)
-	if err != nil {
-		r.run.Errorf("NewNetlinkClient over the simulated socket layer: %v", err)
-		return
-	}
-	lastSeq := uint32(0)
-	first := true
-	for _, n := range lengths {
-		payload := make([]byte, n)
-		for i := range payload {
-			switch n % 4 {
-			case 1:
-				payload[i] = 0 // all NUL: a C-string style copy would stop short
-			case 2:
-				payload[i] = 0xFF
-			case 3:
-				payload[i] = byte(i) // contains every byte value incl. NUL, newline, 0x1d
-			default:
-				payload[i] = byte(i*31 + n)
-			}
+	// clients created WITHOUT and WITH a multicast subscription (a reader that also sends): a request goes to the kernel
+	// alone either way
+	var s *sockSim
+	var c *libaudit.NetlinkClient
+	for _, grp := range []uint32{1, 0x80000001, 0} {
+		clientGroups = grp
+		s = &sockSim{}
+		var err error
+		c, err = newClient(s, 0)
+		clientGroups = 0
+		if err != nil {
+			r.run.Errorf("NewNetlinkClient over the simulated socket layer: %v", err)
+			return
 		}
-		for pi, p := range pairs {
-			for _, pid := range []uint32{0, 99} {
-				s.sent = s.sent[:0]
-				msg := syscall.NetlinkMessage{Header: syscall.NlMsghdr{Len: 0xDEADBEEF, Type: p.typ, Flags: p.flags, Seq: 0xABCDEF, Pid: pid}, Data: payload}
-				seq, err := c.Send(msg)
-				evals++
-				if err != nil {
-					r.rep("send-error", "Send(len=%d) returned %v", n, err)
-					continue
+		lastSeq := uint32(0)
+		first := true
+		for _, n := range lengths {
+			if grp != 0 && n > 64 {
+				break
+			}
+			base := make([]byte, n)
+			for i := range base {
+				switch n % 4 {
+				case 1:
+					base[i] = 0 // all NUL: a C-string style copy would stop short
+				case 2:
+					base[i] = 0xFF
+				case 3:
+					base[i] = byte(i) // contains every byte value incl. NUL, newline, 0x1d
+				default:
+					base[i] = byte(i*31 + n)
 				}
-				if len(s.sent) != 1 {
-					r.rep("send-datagram-count", "Send(len=%d) put %d datagrams on the wire, want 1", n, len(s.sent))
-					continue
+			}
+			// payloads that DESCRIBE THEMSELVES the way framed data does: the first word is the payload's own length, or the
+			// length the whole message will have, little- and big-endian; a payload that starts with a complete netlink
+			// header for itself.  The payload is the caller's bytes, whatever they look like
+			payloads := [][]byte{base}
+			if n >= 4 {
+				for _, w := range []uint32{uint32(n), uint32(n + 16)} {
+					le := append([]byte{}, base...)
+					binary.LittleEndian.PutUint32(le, w)
+					be := append([]byte{}, base...)
+					binary.BigEndian.PutUint32(be, w)
+					payloads = append(payloads, le, be)
 				}
-				d := s.sent[0]
-				wantPid := pid
-				if pid == 0 {
-					wantPid = portID
-				}
-				ok := true
-				if len(d.b) != 16+n {
-					r.rep("send-wire-length", "Send(payload %d bytes): datagram is %d bytes, want %d", n, len(d.b), 16+n)
-					continue
-				}
-				if got := binary.LittleEndian.Uint32(d.b[0:]); got != uint32(16+n) {
-					r.rep("send-nlmsg-len", "Send(payload %d bytes): nlmsg_len=%d, want %d", n, got, 16+n)
-					ok = false
-				}
-				if got := binary.LittleEndian.Uint16(d.b[4:]); got != p.typ {
-					r.rep("send-type", "Send(type %d): nlmsg_type=%d", p.typ, got)
-					ok = false
-				}
-				if got := binary.LittleEndian.Uint16(d.b[6:]); got != p.flags {
-					r.rep("send-flags", "Send(flags %#x): nlmsg_flags=%#x", p.flags, got)
-					ok = false
-				}
-				if got := binary.LittleEndian.Uint32(d.b[8:]); got != seq {
-					r.rep("send-seq-mismatch", "Send returned sequence %d but the datagram carries %d", seq, got)
-					ok = false
-				}
-				if got := binary.LittleEndian.Uint32(d.b[12:]); got != wantPid {
-					r.rep("send-pid", "Send(header pid %d): nlmsg_pid=%d, want %d (socket port id %d)", pid, got, wantPid, portID)
-					ok = false
-				}
-				if !bytes.Equal(d.b[16:], payload) {
-					r.rep("send-payload", "Send(payload %d bytes, pair %d): payload bytes differ on the wire", n, pi)
-					ok = false
-				}
-				if !first && seq <= lastSeq {
-					r.rep("send-seq-not-increasing", "consecutive Send calls returned %d then %d", lastSeq, seq)
-					ok = false
-				}
-				first = false
-				lastSeq = seq
-				if d.flags != 0 {
-					r.rep("send-sendto-flags", "Sendto called with flags %#x", d.flags)
-				}
-				if to, isNl := d.to.(*syscall.SockaddrNetlink); !isNl || to.Pid != 0 || to.Groups != 0 {
-					r.rep("send-destination", "Sendto destination is %#v, want the kernel (netlink pid 0, no groups)", d.to)
-					ok = false
-				}
-				if d.fd != 7 {
-					r.rep("send-fd", "Sendto on fd %d, want the client's socket 7", d.fd)
-				}
-				if ok && n > 0 {
-					nontrivial++
+			}
+			if n >= 16 {
+				h := append([]byte{}, base...)
+				binary.LittleEndian.PutUint32(h, uint32(n))
+				binary.LittleEndian.PutUint16(h[4:], 1000)
+				binary.LittleEndian.PutUint16(h[6:], 5)
+				binary.LittleEndian.PutUint32(h[8:], 77)
+				binary.LittleEndian.PutUint32(h[12:], 4242)
+				payloads = append(payloads, h)
+			}
+			for vi, payload := range payloads {
+				for pi, p := range pairs {
+					if vi > 0 && pi > 1 {
+						break
+					}
+					for _, pid := range []uint32{0, 99} {
+						s.sent = s.sent[:0]
+						msg := syscall.NetlinkMessage{Header: syscall.NlMsghdr{Len: 0xDEADBEEF, Type: p.typ, Flags: p.flags, Seq: 0xABCDEF, Pid: pid}, Data: payload}
+						seq, err := c.Send(msg)
+						evals++
+						if err != nil {
+							r.rep("send-error", "Send(len=%d) returned %v", n, err)
+							continue
+						}
+						if len(s.sent) != 1 {
+							r.rep("send-datagram-count", "Send(len=%d) put %d datagrams on the wire, want 1", n, len(s.sent))
+							continue
+						}
+						d := s.sent[0]
+						wantPid := pid
+						if pid == 0 {
+							wantPid = portID
+						}
+						ok := true
+						if len(d.b) != 16+n {
+							r.rep("send-wire-length", "Send(payload %d bytes): datagram is %d bytes, want %d", n, len(d.b), 16+n)
+							continue
+						}
+						if got := binary.LittleEndian.Uint32(d.b[0:]); got != uint32(16+n) {
+							r.rep("send-nlmsg-len", "Send(payload %d bytes): nlmsg_len=%d, want %d", n, got, 16+n)
+							ok = false
+						}
+						if got := binary.LittleEndian.Uint16(d.b[4:]); got != p.typ {
+							r.rep("send-type", "Send(type %d): nlmsg_type=%d", p.typ, got)
+							ok = false
+						}
+						if got := binary.LittleEndian.Uint16(d.b[6:]); got != p.flags {
+							r.rep("send-flags", "Send(flags %#x): nlmsg_flags=%#x", p.flags, got)
+							ok = false
+						}
+						if got := binary.LittleEndian.Uint32(d.b[8:]); got != seq {
+							r.rep("send-seq-mismatch", "Send returned sequence %d but the datagram carries %d", seq, got)
+							ok = false
+						}
+						if got := binary.LittleEndian.Uint32(d.b[12:]); got != wantPid {
+							r.rep("send-pid", "Send(header pid %d): nlmsg_pid=%d, want %d (socket port id %d)", pid, got, wantPid, portID)
+							ok = false
+						}
+						if !bytes.Equal(d.b[16:], payload) {
+							r.rep("send-payload", "Send(payload %d bytes, pair %d): payload bytes differ on the wire", n, pi)
+							ok = false
+						}
+						if !first && seq <= lastSeq {
+							r.rep("send-seq-not-increasing", "consecutive Send calls returned %d then %d", lastSeq, seq)
+							ok = false
+						}
+						first = false
+						lastSeq = seq
+						if d.flags != 0 {
+							r.rep("send-sendto-flags", "Sendto called with flags %#x", d.flags)
+						}
+						if to, isNl := d.to.(*syscall.SockaddrNetlink); !isNl || to.Pid != 0 || to.Groups != 0 {
+							r.rep("send-destination", "Sendto destination is %#v, want the kernel (netlink pid 0, no groups)", d.to)
+							ok = false
+						}
+						if d.fd != 7 {
+							r.rep("send-fd", "Sendto on fd %d, want the client's socket 7", d.fd)
+						}
+						if ok && n > 0 {
+							nontrivial++
+						}
+					}
 				}
 			}
 		}
@@ -998,6 +1041,7 @@ func main() {
 	e3, n3 := checkParser(r)
 	e4, n4 := checkDescriptorsAndBuffers(r)
 	e3, n3 = e3+e4, n3+n4
+	r.afterlife()
 	// concurrent Send
 	var schedules int64
 	for _, p := range sendPrograms(*tier) {
@@ -1066,4 +1110,73 @@ func main() {
 	run.Set("exhaustive", true)
 	run.Assume("socket layer simulated behind the syscall seam (vsys); the conformance pass ties the modelled wire bytes to the real kernel's verbatim echo on NETLINK_ROUTE (thorough tier)")
 	os.Exit(run.Finish())
+}
+
+// ---- after the caller has let go (C18: Close closes the socket - once) ---------------------------------------
+
+//go:noinline
+func useAndDrop(sim *sockSim, close bool, sends int) {
+	c, err := newClient(sim, 0)
+	if err != nil {
+		return
+	}
+	for i := 0; i < sends; i++ {
+		_, _ = c.Send(syscall.NetlinkMessage{Header: syscall.NlMsghdr{Type: 1000, Flags: 5}, Data: []byte{1, 2, 3, 4}})
+	}
+	_, _ = c.Receive(true, func(b []byte) ([]syscall.NetlinkMessage, error) { return nil, nil })
+	if close {
+		_ = c.Close()
+	}
+}
+
+// afterlife: clients that were closed (and clients that were not) become unreachable, the garbage collector runs
+// three rounds with a sentinel finalizer each: a closed client's descriptor is not closed again - the number may long
+// belong to another file - and nothing is sent.
+func (r reporter) afterlife() {
+	type obs struct {
+		sim           *sockSim
+		closed, sends int
+		wasClosed     bool
+	}
+	var all []obs
+	for _, cl := range []bool{true, false} {
+		for sends := 0; sends < 3; sends++ {
+			for rep := 0; rep < 4; rep++ {
+				sim := &sockSim{}
+				useAndDrop(sim, cl, sends)
+				all = append(all, obs{sim, len(sim.closed), len(sim.sent), cl})
+			}
+		}
+	}
+	vsys.Uninstall()
+	for round := 0; round < 3; round++ {
+		done := make(chan struct{})
+		func() {
+			s := new([64]byte)
+			runtime.SetFinalizer(s, func(*[64]byte) { close(done) })
+		}()
+		deadline := time.After(time.Minute)
+		for finished := false; !finished; {
+			runtime.GC()
+			select {
+			case <-done:
+				finished = true
+			case <-deadline:
+				r.run.Set("afterlife_pass", "skipped: the runtime did not run finalizers within a minute")
+				return
+			case <-time.After(5 * time.Millisecond):
+			}
+		}
+	}
+	for _, o := range all {
+		if o.wasClosed && (len(o.sim.closed) != o.closed || len(o.sim.sent) != o.sends) {
+			r.rep("activity-after-close-and-collection", "a NetlinkClient was closed by its owner (the socket layer had seen %d close, %d datagrams) and dropped; after garbage collections the socket layer has seen %d closes (%v) and %d datagrams", o.closed, o.sends, len(o.sim.closed), o.sim.closed, len(o.sim.sent))
+			return
+		}
+		if !o.wasClosed && len(o.sim.sent) != o.sends {
+			r.rep("activity-after-close-and-collection", "a NetlinkClient was dropped without Close; after garbage collections %d more datagrams were sent", len(o.sim.sent)-o.sends)
+			return
+		}
+	}
+	r.run.Set("afterlife_pass", fmt.Sprintf("%d clients used, closed or not, dropped; 3 collection rounds; socket-layer activity compared", len(all)))
 }
